@@ -89,6 +89,31 @@ func buildProperty(ww *conversionVisitor, node *sourcewalk.PropertyNode) (*descr
 			Options:  &descriptorpb.FieldOptions{},
 		}
 
+		ww.setJ5Ext(node.Source, fieldDesc.Options, "map", st.Map.Ext)
+
+		// As for arrays: the rules of the map and of its values go on the map
+		// field, which is where validators and the schema reader look for them
+		// (options of the entry's value field cannot even be written in proto
+		// source: `map<string, T>` has no place for them).
+		valueValidateExt := proto.GetExtension(itemDesc.Options, validate.E_Field).(*validate.FieldConstraints)
+		if valueValidateExt != nil || st.Map.Rules != nil {
+			mapRules := &validate.MapRules{
+				Values: valueValidateExt,
+			}
+
+			if st.Map.Rules != nil {
+				mapRules.MinPairs = st.Map.Rules.MinPairs
+				mapRules.MaxPairs = st.Map.Rules.MaxPairs
+			}
+
+			proto.SetExtension(fieldDesc.Options, validate.E_Field, &validate.FieldConstraints{
+				Type: &validate.FieldConstraints_Map{
+					Map: mapRules,
+				},
+			})
+			ww.file.ensureImport(bufValidateImport)
+		}
+
 	case *schema_j5pb.Field_Array:
 		if st.Array.Items == nil {
 			return nil, errors.New("missing array items")
